@@ -57,6 +57,8 @@ type GenOpts struct {
 	// Plain keeps unions flat: branches are scalars or references, `T | null`
 	// only over a non-union T, no anonymous struct inside a union, no allOf.
 	Plain bool
+	// ConstRefs forces the constant-reference block (CUE only expresses it).
+	ConstRefs bool
 }
 
 type worldGen struct {
@@ -420,10 +422,19 @@ func GenPackage(r *Rand, name string, opts GenOpts) *WPackage {
 		p.Objects = append(p.Objects, WObject{Name: "Holder", T: holder})
 		g.objNames = append(g.objNames, "Holder")
 	}
+	// a named `T | null` (and a user of it): an object that is a scalar alias for the
+	// languages whose chain folds the null branch into nullability, and a union for the others
+	if sr := r.Side("nullable-alias:" + name); !opts.Plain && sr.Chance(1, 4) {
+		inner := Pick(sr, []*WType{{K: "string"}, {K: "int"}, {K: "array", Elem: &WType{K: "string"}}, {K: "map", Elem: &WType{K: "bool"}}})
+		p.Objects = append(p.Objects,
+			WObject{Name: "MaybeLabel", T: &WType{K: "union", Branches: []*WType{inner, {K: "null"}}}},
+			WObject{Name: "UsesLabel", T: &WType{K: "struct", Fields: []WField{{Name: "label", T: &WType{K: "ref", Ref: "MaybeLabel"}, Required: sr.Bool()}, {Name: "labels", T: &WType{K: "array", Elem: &WType{K: "ref", Ref: "MaybeLabel"}}}}}},
+		)
+	}
 	// constant references (only CUE can express them; the other formats see plain constants):
 	// an enum object and a struct whose fields pin one of its members. Drawn from a side
 	// stream so that the rest of the package does not depend on whether this block exists.
-	if sr := r.Side("constref:" + name); sr.Chance(1, 3) {
+	if sr := r.Side("constref:" + name); opts.ConstRefs || sr.Chance(1, 3) {
 		members := []any{"ka", "kb", "kc"}
 		p.Objects = append(p.Objects, WObject{Name: "KindEnum", T: &WType{K: "enum", Enum: members}})
 		uses := &WType{K: "struct", Fields: []WField{
